@@ -188,6 +188,39 @@ pub struct ThreadCtx<T: Payload> {
     pub keep_one: bool,
 }
 
+// ---- threads that die by a panic ---------------------------------------------------------------------------
+// A worker that panics drops its handles while unwinding (`std::thread::panicking()` is true then); its peers are meant
+// to learn of its death through the disconnect. `die()` starts such an unwinding on purpose; the thread's `ThreadCtx`
+// is dropped by it and lets its handles go one by one, recorded as ordinary `DropS`/`DropR` events, and leaves its
+// log in `DEATH_LOGS`.
+pub struct Died;
+thread_local! {
+    static DYING: std::cell::Cell<bool> = const { std::cell::Cell::new(false) };
+}
+pub static DEATH_LOGS: std::sync::Mutex<Vec<(u16, Vec<Event>)>> = std::sync::Mutex::new(Vec::new());
+pub static DEATHS: std::sync::atomic::AtomicU64 = std::sync::atomic::AtomicU64::new(0);
+pub fn die() -> ! {
+    DYING.with(|d| d.set(true));
+    std::panic::resume_unwind(Box::new(Died))
+}
+pub fn take_death_log(th: u16) -> Vec<Event> {
+    let mut g = DEATH_LOGS.lock().unwrap();
+    match g.iter().position(|(t, _)| *t == th) {
+        Some(i) => g.swap_remove(i).1,
+        None => vec![],
+    }
+}
+impl<T: Payload> Drop for ThreadCtx<T> {
+    fn drop(&mut self) {
+        if DYING.with(|d| d.replace(false)) && std::thread::panicking() {
+            DEATHS.fetch_add(1, std::sync::atomic::Ordering::Relaxed);
+            self.finish();
+            let log = std::mem::take(&mut self.log);
+            DEATH_LOGS.lock().unwrap().push((self.th, log));
+        }
+    }
+}
+
 impl<T: Payload> ThreadCtx<T> {
     /// The duration handed to a timed call. A deadline of `LONG_US` or more stands for "cannot expire in this
     /// run"; those are drawn (by thread, position and the run's pattern seed) from a table of ways to say "practically
